@@ -441,8 +441,18 @@ class _OutKeysSelect:
                 raise RuntimeError(
                     f"Selecting out-keys failed. Original out_keys: {module._out_keys}, selected: {module.out_keys}."
                 )
-        return tensordict_out.select(
-            *in_keys, *out_keys, inplace=True, strict=tensordict_out is tensordict_in
+        if isinstance(module, TensorDictModule):
+            # _write_to_tensordict only writes the selected outputs: nothing to remove
+            return tensordict_out
+        # Only the outputs that were not selected are removed: the other entries of the
+        # tensordict (which may be the input itself) are none of this module's business.
+        return tensordict_out.exclude(
+            *[
+                key
+                for key in module._out_keys
+                if key not in out_keys and key not in in_keys
+            ],
+            inplace=True,
         )
 
     def _detect_dispatch(self, tensordict_in, kwargs, in_keys):  # noqa: F811
@@ -1143,8 +1153,10 @@ class TensorDictModule(TensorDictModuleBase):
                 "network.",
                 category=DeprecationWarning,
             )
+        selected_out_keys = self.out_keys
         for _out_key, _tensor in zip(out_keys, tensors):
-            if _out_key != "_":
+            # outputs discarded by select_out_keys are not written
+            if _out_key != "_" and _out_key in selected_out_keys:
                 tensordict_out.set(_out_key, TensorDict.from_any(_tensor))
         return tensordict_out
 
